@@ -54,6 +54,7 @@ Leaves ==
     \cup {Un("eq", FX, <<"ref", FXY>>), Un("lt", FX, <<"dollar", FXY>>)}
     \cup {Un("eq", FXY, Lit(v)) : v \in LitPool}
 BinLeaves == {Un(op, FX, Lit(v)) : op \in CmpOps, v \in LitPool}
+InLeaves  == {Un("in", FX, <<"list", <<Lit(v), Lit(w)>> >>) : v, w \in LitPool}
 Crits ==
     Leaves
     \cup (IF QueryLevel >= 1
@@ -68,6 +69,10 @@ Crits ==
           THEN {And(a, b) : a, b \in BinLeaves} \cup {Or(a, b) : a, b \in BinLeaves}
                \cup {Not(And(a, b)) : a, b \in {Un(op, FX, Lit(v)) : op \in {"lt", "gte"}, v \in LitPool}}
                \cup {And(a, Un("eq", FXY, Lit(v))) : a \in BinLeaves, v \in LitPool}
+               \* membership tests (and their negations) next to a bound on the same field
+               \cup {And(i, b) : i \in InLeaves, b \in BinLeaves} \cup {And(b, i) : i \in InLeaves, b \in BinLeaves}
+               \cup {And(Not(i), b) : i \in InLeaves, b \in BinLeaves} \cup {And(b, Not(i)) : i \in InLeaves, b \in BinLeaves}
+               \cup {Not(Or(i, b)) : i \in InLeaves, b \in BinLeaves}
           ELSE {})
 
 SortPool == { <<>>, << <<"sort", << <<FX, 1>> >> >> >>, << <<"sort", << <<FX, -1>> >> >> >>,
